@@ -127,14 +127,82 @@ def oracle(rec):
     return out
 
 
+def model_fragment(R, snap, jobs, recs):
+    """The codec model on the swept estimators: each estimator the sweep loaded is rebuilt exactly as the sweep built it
+    (values.build_estjob), abstracted to a `pval` term (pval_emit: PObj class-name OKState __getstate__() ...; Unmodelled for what
+    skops dispatches to TreeNode / LossNode / unsupported), and the model is evaluated by vm_compute: normalised schema and
+    loaded value vs the implementation (a disagreement is an obligation broken, as in C04 / C05), `supported`, c05_guard (= inside
+    C07_estimator_roundtrip / C07_state_fidelity_partial), and whether the model's round trip is exact / the same value."""
+    from props import c05 as K
+    todo = [job for job, r in zip(jobs, recs) if r and not any(k in r for k in ("skipped", "crash", "harness_error")) and r.get("load") == "ok"]
+    cap = 400       # thorough tier: the sweep has several thousand jobs; the model is evaluated on an evenly spaced subset of them
+    if len(todo) > cap:
+        step = -(-len(todo) // cap)
+        todo = todo[::step]
+    specs = [["estjob", job] for job in todo]
+    if not specs:
+        return
+    crecs = K.run_impl_codec(specs, {"protocol": snap["protocol"], "cycles": 0})
+    bad, flags, idx = K.model_compare(R, crecs, "c07", flags=["c05_case_supported", K.PROVED, K.EXACT, K.SAME], shard=8)
+    pos = {i: j for j, i in enumerate(idx)}
+    inside, outside, unmodelled, not_built = [], {}, {}, []
+    nsup = nexact = nsame = 0
+    for i, (job, cr) in enumerate(zip(todo, crecs)):
+        who = label(job)
+        if cr is None or cr.get("build") != "ok":
+            not_built.append(who)
+            continue
+        if not cr.get("term"):
+            unmodelled.setdefault(cr.get("skip") or "?", []).append(who)
+            R.count("model:unmodelled")
+            continue
+        j = pos[i]
+
+        def fl(name):
+            return bool(flags[name][j]) if j < len(flags[name]) else False
+        sup, pr, ex, same = fl("c05_case_supported"), fl(K.PROVED), fl(K.EXACT), fl(K.SAME)
+        nsup += sup
+        nexact += ex
+        nsame += same
+        if pr:
+            inside.append(who)
+            R.count("model:inside-theorem")
+            if not ex:
+                R.obligation_broken("C07 guard vs model", f"c05_guard holds of the abstraction of {who} ({json.dumps(job)}) but the model's loads(dumps(v)) is not v")
+        else:
+            why = "not-supported" if not sup else "supported-but-outside-guard (an object met twice whose __getstate__() dicts differ per visit, or labels)"
+            outside.setdefault(why, []).append(who)
+            R.count("model:outside-theorem")
+        if sup and not same:
+            R.obligation_broken("C07 model round trip", f"the model's loads(dumps(v)) differs from v for the supported abstraction of {who} ({json.dumps(job)})")
+        if not (cr.get("dump", "").startswith("ok:") and cr.get("load", "").startswith("ok:") and cr.get("same")):
+            # the sweep already reports it through its own oracle; here it is an observation about the abstraction
+            R.count("model:impl-abstraction-differs")
+    nmod = len(idx)
+    R.notes["model_fragment"] = (f"{len(inside)}/{len(todo)} swept estimators (jobs that loaded) lie inside C07_estimator_roundtrip / C07_state_fidelity_partial "
+                                 f"(abstraction modelled AND c05_guard, evaluated by vm_compute); modelled {nmod} (supported {nsup}, model round trip exact for {nexact}, "
+                                 f"same value for {nsame}); not modelled {sum(len(v) for v in unmodelled.values())}; rebuilt differently / not built {len(not_built)}")
+    R.notes["model_inside"] = sorted(set(inside))
+    R.notes["model_outside"] = {k: sorted(set(v)) for k, v in sorted(outside.items())}
+    R.notes["model_unmodelled"] = {k: sorted(set(v)) for k, v in sorted(unmodelled.items())}
+    if not_built:
+        R.notes["model_not_built"] = sorted(set(not_built))
+    K.report_mismatches(R, "C07", specs, crecs, bad)
+
+
 def run(R, only=None):
     snap = R.snapshot()
     R.trusted_base += ["Coq 8.16.1 kernel + vm_compute (no native_compute)",
                        "harness/snapshot.py (default-trusted lists of the node classes, registry)",
                        "scikit-learn 1.9.1 / numpy / scipy as installed: estimator code is an oracle (method_pure is a premise, exercised by the bitwise tests)",
-                       "harness/impl_estimators.py (data, parameter draws from _parameter_constraints, fit fallbacks), harness/absval.py (abs), harness/families.py"]
+                       "harness/impl_estimators.py (data, parameter draws from _parameter_constraints, fit fallbacks), harness/absval.py (abs), harness/families.py",
+                       "harness/pval_emit.py + harness/values.py:build_estjob + harness/impl_codec.py (estimator -> pval term; schema / loaded value vs the codec model)"]
     R.assumptions += ["C07_reduction premises: method_pure (outputs depend on class and state only, up to value-isomorphism), resolve_name (class importable "
-                      "under its saved name), codec (C05 round trip of states), the classes' own __getstate__/__setstate__/__reduce__ contract",
+                      "under its saved name), codec (C05 round trip of states: a THEOREM on the fragment, C07_codec_premise_on_fragment), the classes' own "
+                      "__getstate__/__setstate__/__reduce__ contract",
+                      "an estimator is abstracted to its class name and the state __getstate__() hands out (harness/pval_emit.py); Tree / loss objects (TreeNode, "
+                      "LossNode: constructor arguments AND state) are outside the value model: estimators holding them are covered by C07_reduction_reduce's "
+                      "hypotheses and the sweep only",
                       "bit-identical outputs are TESTED on the installed BLAS/Cython build on tiny data, not proved",
                       "a method whose two loaded copies disagree with each other (RNG consumed at predict time) is reported as impure and not compared",
                       "'made only of default-trusted parts' = every reported name belongs to a documented default family (families.py); estimators with private "
@@ -194,8 +262,13 @@ def run(R, only=None):
     R.notes["impure_methods"] = sorted(set(impure))
     R.notes["method_outputs_compared"] = nmeth
     R.notes["guards"] = ["C07_reduction: premises method_pure, resolve_name, codec (C05), getset_contract / reduce_contract",
+                         "C07_estimator_roundtrip / C07_codec_premise_on_fragment / C07_state_fidelity_partial: the codec premise is discharged for every state "
+                         "with c05_guard (class name resolvable, no hidden payload; state in the C05 fragment; one label = one object; depth below the fuel); "
+                         "premises left: resolve_name, the class's pickle contract, method_pure",
                          "C07_sparse_default_trusted: per-run, the concrete sparse matrix classes are defaults of SparseMatrixNode (D12 repaired)"]
     R.notes["not_modelled"] = ["numerical code of scikit-learn/BLAS (oracle)", "state outside __getstate__/__dict__/__reduce__", "other scikit-learn versions"]
+    if snap is not None:
+        model_fragment(R, snap, jobs, recs)
     if not only:
         pr = impl("probe", {})
         R.notes["probe_D12"] = pr
